@@ -216,3 +216,14 @@ Theorem C04_end_masks_ok :
       Bool.eqb (N.testbit (nthN' unsetLarger r) (N.of_nat b)) (nth b bv 0 <=? r)) (seq 0 8)) (Nseq 37) = true.
 Proof. exact end_masks_ok. Qed.
 Print Assumptions C04_end_masks_ok.
+
+(** counting at bit level: the number of set bits of the byte arrays the model kernel computes (what the popcount of
+    countPrimes sums up) is pi(stop) - pi(start - 1), for every configuration and every interval with start >= 7 *)
+From PS Require Import Proofs.PopcountP.
+Theorem C04_kernel_popcount_spec : forall l1 maxKB start stop fuelg fuel l result,
+  16 <= maxKB -> maxKB <= 8192 -> 7 <= start -> start <= stop -> stop <= MAX64 ->
+  segments fuelg l1 maxKB start stop = Some l ->
+  sieve_loop fuel eratSmallSteps stop (map to_kseg l) (primes_between 7 (N.sqrt stop)) [] = Some result ->
+  N.of_nat (popcount_bytes (run_bytes start stop result)) = count_primes_spec start stop.
+Proof. exact kernel_popcount_spec. Qed.
+Print Assumptions C04_kernel_popcount_spec.
